@@ -22,7 +22,7 @@ ASSUMPTIONS = [
     'exact references in Fraction arithmetic (stbemv/oracles/slobo.py), validated against the two closed values the repository quotes',
 ]
 REQUIRED = {t: ['routine:h_1_4', 'routine:h_1_2', 'routine:h_1_2-curve', 'routine:h_1_2_pw', 'order:1', 'order:21', 'order:23(h_1_4)',
-                'rel:nonnegative', 'rel:constant', 'rel:scaling', 'rel:translation', 'interval:small', 'interval:large', 'degree:max']
+                'rel:nonnegative', 'rel:constant', 'rel:scaling', 'rel:translation', 'interval:small', 'interval:large', 'degree:max', 'corner:repo-line-pieces']
             for t in ('quick', 'thorough')}
 TIMEOUT = {'quick': 600, 'thorough': 3600}
 ORDERS = list(range(1, 22, 2))
@@ -204,8 +204,17 @@ def run_corner(spec, acc):
         C = np.array([[rng.uniform(-1, 1)], [rng.uniform(-1, 1)]])
         d1 = np.array([[1.0], [0.0]])
         d2 = np.array([[math.cos(math.pi - ang)], [math.sin(math.pi - ang)]])  # interior angle `ang` at the corner
-        g1 = lambda xh: C + d1 * (np.asarray(xh, dtype=float) - b1)
-        g2 = lambda xh: C + d2 * (np.asarray(xh, dtype=float) - a2)
+        if case % 2 == 0:
+            # the pieces as the repository builds them for a polygon: parametrization.line(a, b, x_start)
+            from src.parametrization import line
+            P0 = (C - d1 * h1).ravel()
+            P2 = (C + d2 * h2).ravel()
+            g1, _ = line(P0, C.ravel().copy(), x_start=a1)
+            g2, _ = line(C.ravel().copy(), P2, x_start=a2)
+            acc.seen('corner:repo-line-pieces')
+        else:
+            g1 = lambda xh: C + d1 * (np.asarray(xh, dtype=float) - b1)
+            g2 = lambda xh: C + d2 * (np.asarray(xh, dtype=float) - a2)
         c = [rng.uniform(-1, 1) for _ in range(6)]
 
         def F(X):
